@@ -67,4 +67,13 @@ TEXT.update({
         note="Trusted: Lean kernel + 3 standard axioms; the context package's AfterFunc/stop/WithoutCancel semantics and callback scheduling are modelled; tie = this run's differential.",
         technique="Lean 4 proof (inductive invariants over all interleavings of cancellations and callbacks) + differential execution after quiescence"),
 })
+TEXT.update({
+    "C14": dict(
+        text="Lean theorems for every reachable state of the Workers transition system (any callers, any count sequence, any interleaving of call/take/finish/exit): "
+             "running <= live workers <= largest count requested; queued ++ running ++ done has no duplicates (exactly once); the finishing worker reports the job it took; "
+             "a non-empty queue always has a live worker and some worker step is enabled (no stuck state with work pending); Wait's condition implies nothing is running. "
+             "Starvation-freedom is proved in this enabledness form, not as a fairness leadsTo. Tied by concurrent trace acceptance: hook events from inside the critical sections.",
+        note="Trusted: Lean kernel + 3 standard axioms; critical-section atomicity and goroutine scheduling modelled; tie = acceptance of this run's concurrent event logs by the LTS.",
+        technique="Lean 4 proof (inductive invariant over an LTS with unbounded worker population) + concurrent trace acceptance"),
+})
 NOT_YET = {}
